@@ -1,6 +1,7 @@
 // dst: multi-call driver. master (check), worker, run1 (one plan, fresh
 // process), replay, gen.
 #include "core.hpp"
+#include "export.hpp"
 #include <algorithm>
 #include <cerrno>
 #include <chrono>
@@ -18,6 +19,7 @@
 namespace vf {
 
 void (*g_note_plan)(Plan const&) = nullptr;
+std::vector<QueueExport>* g_queue_export = nullptr;
 static std::vector<Engine*>* g_engines;
 void register_engine(Engine* e)
 {
